@@ -14,15 +14,16 @@ class Quant:
         wd = os.path.join(check.work, 'ast')
         self.clang_errors = []
         self.class_list = tu.class_templates()
+        nm = 'quantities_' + '_'.join(t.replace(' ', '') for t in types)      # loaders for different types may run side by side
         p = astload.dump(tu.quantities_tu(tuple(types), tuple(other_types), classes=self.class_list, hash_=hash_, conv=conv, members=members),
-                         wd, 'quantities', tolerate=self.clang_errors)
+                         wd, nm, tolerate=self.clang_errors)
         txt = tu.quantities_tu(tuple(types), tuple(other_types), classes=self.class_list, hash_=hash_, conv=conv, members=members)
         self.ast = astload.Ast().load(p)
         os.remove(p)
         if hash_:
             # std::hash<PhQ::X<T>> instantiations live under std::hash and are not matched by the PhQ filter;
             # same TU, second filter, same node ids (ASLR off)
-            p2 = astload.dump(txt, wd, 'quantities', filt='hash', tolerate=[])
+            p2 = astload.dump(txt, wd, nm, filt='hash', tolerate=[])
             self.ast.load(p2)
             os.remove(p2)
         self.low = lower.Lowerer(self.ast)
